@@ -69,6 +69,16 @@ def gen_cases(ctx):
     for i in range(4000 if ctx.tier == "quick" else 0):
         static = None if rng.random() < 0.4 else rng.randrange(1, 33)
         yield _base(rng, static=static, lens=[rng.randrange(0, 41)])
+    # set-up histories: legal calls between opening the pipes and the traffic (role round trips,
+    # `with` re-entry, the sender listening on a pipe-0 address of its own, the address width
+    # assigned after the pipes were opened)
+    for i in range(2500 if ctx.tier == "quick" else 60000):
+        static = None if rng.random() < 0.5 else rng.randrange(1, 33)
+        pre = [rng.choice(L.PRE_OPS) for _ in range(rng.randrange(1, 6))]
+        over = {"pre": pre}
+        if rng.random() < 0.3:
+            over["aw_first"] = rng.choice([3, 4, 5])
+        yield _base(rng, static=static, lens=[rng.randrange(1, 33)], **over)
     if ctx.tier == "thorough":
         for btype in ("bytes", "bytearray"):
             for n in range(41):
@@ -82,7 +92,8 @@ def gen_cases(ctx):
 def sig_of(case):
     return (tuple(case["lens"]), case["btype"], case["static"], case["pipe"], case["aw"],
             case["rate"], case["crc"], case["auto_ack"], case["ask_no_ack"], case["form"],
-            case["flavour"], case.get("tx_kind"), case.get("rx_kind"))
+            case["flavour"], case.get("tx_kind"), case.get("rx_kind"), tuple(case.get("pre", ())),
+            case.get("aw_first"))
 
 
 def run_case(ctx, case, kinds=None, prefix=""):
